@@ -512,4 +512,6 @@ def run(ctx):
     _fam.mapping_list(ctx, "C20")
     _fam.thread_list(ctx, "C20")
     _fam.stack_lookup(ctx, "C20")
-
+    # the stream reaches the caller's file where the directory says, wherever in the destination the dump starts (rules/families.py)
+    from rules import families as _famd
+    _famd.destination(ctx, "C20")
